@@ -918,10 +918,41 @@ class C16(Check):
         # (d) the whole command line (sanitized binary) on shape-correct initial-affinity files whose *values* are
         # extreme (huge, tiny, negative, zero): whatever the numbers do to the likelihood, no memory error / UB
         self.frontend_pass(rng, 24 if self.tier == "quick" else 200)
+        self.wide_rows_pass(rng)
         self.cov["rule"] = ("(a) valid inputs x all variants/label/weight types through the library under ASan+UBSan+LSan with assertions and _GLIBCXX_ASSERTIONS; "
                             "(b) 14 kinds of token/byte mutations of adjacency and affinity files through the real readers in-process, vector sized independently of the file; "
                             "(c) valgrind memcheck (uninitialised values) on an unsanitized build of the readers; "
                             "(d) the sanitized command-line binary end to end on shape-correct affinity files with extreme values (1e308, -1e308, denormals, negatives, > 2^31); distinct by (reader, file bytes) / (variant, records, seed)")
+
+    def wide_rows_pass(self, rng):
+        """many groups on a network of a hundred and more vertices, stopped after one or two sweeps: membership rows of about a
+        hundred small values (1e-5 .. 1e-2: eleven to fourteen characters each), the widest lines the writers produce"""
+        for k in range(1 if self.tier == "quick" else 4):
+            N = rng.randint(110, 160) if self.tier == "thorough" else rng.randint(48, 60)
+            K = rng.choice([88, 96, 100])
+            recs = [(i, (i + 1) % N, [1, rng.choice([0, 1])]) for i in range(N)] + \
+                   [(rng.randrange(N), rng.randrange(N), [rng.choice([0, 1]), 1]) for _ in range(N if self.tier == "thorough" else N // 3)]
+            adj = "".join("%s %s %s\n" % (s0, d0, " ".join(str(w) for w in ws)) for s0, d0, ws in recs)
+            argv = ["--a", "adj.dat", "--k", str(K), "--maxit", "1", "--s", str(rng.randint(0, 999)), "--o", "out"]
+            if rng.random() < 0.3:
+                argv.append("--undirected")
+            wd = os.path.join(self.bdir, "scratch", "p%d_" % os.getpid() + ("wide%d" % k))
+            res = run_cli(self.bdir, argv, {"adj.dat": adj}, wd, timeout=900)
+            self.cov["evaluations"] += 1
+            self.monitor("command-line runs with about a hundred groups on a hundred and more vertices")
+            self.nontrivial(("wide", adj, tuple(argv)))
+            bad = None
+            if res.rc < 0 or res.rc in (77, 78, 134, 139, -999) or sanitizer_report(res.err):
+                bad = "%s (status %s)" % (summarise(res.err), res.rc)
+            elif res.rc == 0:
+                for name in ("out/u_out.dat",) + (() if "--undirected" in argv else ("out/v_out.dat",)):
+                    rows = [l for l in read_tokens(res.files.get(name, "/nonexistent")) if l and l[0] != "#"] if name in res.files else []
+                    if len(rows) != N or any(len(r0) != K + 1 for r0 in rows):
+                        bad = "%s has %d rows (lengths %s), expected %d rows of a label and %d values" % (name, len(rows), sorted({len(r0) for r0 in rows})[:4], N, K)
+            if bad:
+                self.violate("frontend-memory-or-ub", "command line with %d groups on %d vertices: %s" % (K, N, bad),
+                             {"argv": argv, "files": {"adj.dat": adj}, "status": res.rc, "stderr": res.err[-2500:]})
+            shutil.rmtree(wd, ignore_errors=True)
 
     def frontend_pass(self, rng, n):
         extreme = ["1e308", "-1e308", "-1.7e308", "1.7e308", "1e154", "-1e154", "1e12", "1e-320", "4.9e-324", "0", "-0",
